@@ -1177,6 +1177,23 @@ func (x *Exec) callFunc(e *Env, callee *types.Func, recvExpr ast.Expr, n *ast.Ca
 		args = append(args, rv)
 		argExprs = append(argExprs, recvExpr)
 	} else if v, ok := x.nativeFunc(e, callee, n); ok {
+		if len(x.frames) == 1 && x.C != nil && len(x.C.Lets) > 0 {
+			// ghost bindings to a library function with a built-in model (arguments are pure: evaluating
+			// them a second time has no effect)
+			if nm, _ := x.callOccurrence(x.top(), n); nm != "" {
+				for _, lc := range x.C.Lets {
+					if lc.Callee == nm {
+						var av []Value
+						for _, a := range n.Args {
+							av = append(av, e.expr(a))
+						}
+						x.bindLets(e, n, av, false, nil, false)
+						x.bindLets(e, n, av, false, v, true)
+						break
+					}
+				}
+			}
+		}
 		return v
 	}
 	if sig.Variadic() && !n.Ellipsis.IsValid() {
@@ -1312,7 +1329,11 @@ func (x *Exec) modularCall(e *Env, callee *types.Func, c *Contract, args []Value
 		short = shortPkg(pp) + "." + key
 	}
 	if c.Assumed {
-		x.trusted[pp+"."+key] = true
+		if c.Variant != "" {
+			x.trusted[pp+"."+key+" (variant "+c.Variant+": a restatement used only inside "+c.Variant+"-level proofs, declared at "+c.Where+"; the function's other contracts are proved)"] = true
+		} else {
+			x.trusted[pp+"."+key] = true
+		}
 	}
 	ord := 0
 	if n != nil {
